@@ -21,6 +21,29 @@ var c19Queries = []string{
 	"SELECT a FROM t WHERE a > ? AND s",
 	"SELECT a FROM t WHERE a > ? ORDER BY vfault(a)",
 	"SELECT a, vfault(a) AS k FROM t WHERE a > ? GROUP BY vfault(a)",
+	"SELECT a FROM t WHERE a BETWEEN vfault(?) AND 9",
+	"SELECT a FROM t WHERE a BETWEEN ? AND vfault(9)",
+	"SELECT a FROM t WHERE vfault(a) NOT BETWEEN ? AND 9",
+	"SELECT a FROM t WHERE a NOT BETWEEN vfault(?) AND vfault(9)",
+	"SELECT a FROM t WHERE a IN (?, vfault(a), 3)",
+	"SELECT a FROM t WHERE a NOT IN (vfault(a), ?)",
+	"SELECT a FROM t WHERE vfault(a) IN (?, 3)",
+	"SELECT CASE WHEN vfault(a) > ? THEN 1 ELSE 2 END AS v FROM t",
+	"SELECT CASE WHEN a > ? THEN vfault(a) ELSE vfault(1) END AS v FROM t",
+	"SELECT a + vfault(a) AS v, vfault(a) * ? AS w FROM t",
+	"SELECT -vfault(a) AS v FROM t WHERE a > ?",
+	"SELECT a FROM t WHERE NOT (vfault(a) > ?)",
+	"SELECT a FROM t WHERE a > ? OR vfault(a) > 1",
+	"SELECT a FROM t WHERE a > ? AND vfault(a) > 1",
+	"SELECT a FROM t WHERE vfault(a) IS NOT NULL AND a > ?",
+	"SELECT a FROM t WHERE s LIKE vfault('s%') AND a > ?",
+	"SELECT IF(a > ?, vfault(a), 1) AS v, CONCAT(vfault('x'), 'y') AS c FROM t",
+	"SELECT ARRAY(a, vfault(a)) AS v, (vfault(a), 2) AS t2 FROM t WHERE a > ?",
+	"SELECT SUBSTRING(s, vfault(0), 1) AS v FROM t WHERE a > ?",
+	"SELECT FIRST(ARRAY(vfault(a))) AS v FROM t WHERE a > ?",
+	"SELECT SUM(a) AS s FROM t WHERE a > ? HAVING vfault(1) = 1",
+	"SELECT COUNT(*) AS n FROM t WHERE vfault(a) > ?",
+	"SELECT a FROM t WHERE a > ? LIMIT 1",
 }
 
 // H_C19_faults: a user function failing at its k-th invocation (any k), a
